@@ -52,7 +52,13 @@ def main(argv=None):
     data = json.load(open(path))
     from sim.runner import run_one_forked
 
-    r = run_one_forked(lambda _: _engine_run(data), 0, wall=600)
+    if data["engine"] in ("session", "harvest", "worlds", "par-sim"):
+        from checks import common
+
+        common.preload()
+        if data["engine"] == "session":
+            common.warmup()
+    r = run_one_forked(lambda _: _engine_run(data), 0, wall=1200)
     if r["status"] != "ok":
         print(f"replay harness problem: {r.get('error')}\n{r.get('trace','')}")
         return 2
